@@ -9,6 +9,7 @@ import Pdt.Model.Resolve
 import Pdt.Model.Verbs
 import Pdt.Model.Ops
 import Pdt.Model.Impl
+import Pdt.Model.Strings
 import Pdt.Gen.OpTable
 import Pdt.Gen.Casts
 
@@ -123,6 +124,16 @@ def handle (j : Json) : Except String String := do
       let (v, _) ← Codec.litOfJson (← j.getObjVal? "arg")
       let t ← Codec.dtypeOfJson (← j.getObjVal? "to")
       pure (Ops.castVal v t).toText
+  | "quote" =>
+      let t ← j.getObjValAs? String "s"
+      pure (Json.str (String.ofList (Strings.quote t.toList))).compress
+  | "autoescape" =>
+      let t ← j.getObjValAs? String "s"
+      pure (Json.str (String.ofList (Strings.autoescape t.toList))).compress
+  | "like" =>
+      let pat ← j.getObjValAs? String "pattern"
+      let t ← j.getObjValAs? String "s"
+      pure (toString (Strings.like pat.toList t.toList))
   | "get_impl" =>
       let b ← j.getObjValAs? String "backend"
       let op ← j.getObjValAs? String "op"
